@@ -1182,6 +1182,8 @@ class _Sim:
                 sig = "fold-accepts-misaligned-leaf:%s" % grp
             else:
                 sig = "fold-differs:%s:%s-tree" % (grp, f["kind"])
+            if grp == "str" and _text_then_bits(sub_model) and sig.endswith(":bits-span-siblings"):
+                sig = sig[: -len(":bits-span-siblings")]  # a property of the tree shape, not the cause
             if grp == "str" and _text_then_bits(sub_model):
                 # established cause: TreeValue.to_string flushes pending bits by encoding the text part with
                 # the bytes->str encoding (Latin-1) instead of UTF-8 ("same encoding in both directions")
